@@ -170,6 +170,8 @@ def genC01 (tier : Tier) (seed : Nat) (o : Out) : IO Unit := do
     o.line (anyCase "layered-structs" "-" [layeredStructs n])
   for n in [12, 20, 28, 40] do
     o.line (anyCase "regress-d01h-dense-compact-key" "-" [denseCompactKey n])
+    o.line (anyCase "regress-d01h-dense-compact-key" "-" [(denseCompactKey n).replace "z: bool" "z: float32"])
+    o.line (anyCase "regress-d01h-dense-compact-key" "-" [(denseCompactKey n).replace "z: bool" "z: Sequence<bool>, y: bool?"])
   -- dense CYCLIC graphs: every simple cycle through the checked type is enumerated (open finding D-05d)
   for n in [3, 5, 7] do
     o.line (anyCase ("complete" ++ toString n) "-" [completeDigraph n])
